@@ -225,7 +225,12 @@ def _get_array_type(x):
     if data_type is pandas_engine.Engine.dtype("object"):
         inferred_alias = pd.api.types.infer_dtype(x, skipna=False)
         if inferred_alias != "string":
-            data_type = pandas_engine.Engine.dtype(inferred_alias)
+            try:
+                data_type = pandas_engine.Engine.dtype(inferred_alias)
+            except TypeError:
+                # not every result of infer_dtype names a data type, e.g.
+                # "empty" for an array without elements: keep object
+                pass
     return data_type
 
 
